@@ -682,6 +682,10 @@ class CollocatedIntegratedOptimizationProblem(OptimizationProblem, metaclass=ABC
 
         symbolic_parameters = ca.vertcat(*ensemble_parameters)
 
+        # Remember the inlined parameters for map_path_expression()
+        self.__constant_parameters = constant_parameters
+        self.__constant_parameter_values = constant_parameter_values
+
         # Inline constant parameter values
         if constant_parameters:
             delayed_feedback_expressions = ca.substitute(
@@ -2716,6 +2720,11 @@ class CollocatedIntegratedOptimizationProblem(OptimizationProblem, metaclass=ABC
         raise IndexError
 
     def map_path_expression(self, expr, ensemble_member):
+        if self.__constant_parameters:
+            # Parameters that are constant across the ensemble are not function inputs
+            [expr] = ca.substitute(
+                [expr], self.__constant_parameters, self.__constant_parameter_values
+            )
         f = ca.Function("f", self.__func_orig_inputs, [expr]).expand()
         initial_values = f(*self.__func_initial_inputs[ensemble_member])
 
